@@ -31,6 +31,14 @@ type WCfg struct {
 	S map[string]struct{} `dials:"s"`
 }
 
+// Verify rejects the value 13 (Wrap.tla: Bad)
+func (c *WCfg) Verify() error {
+	if c.A == 13 {
+		return errors.New("verify-bad a=13")
+	}
+	return nil
+}
+
 type wstep struct {
 	Op     string `json:"op"`
 	A      int    `json:"a"`
@@ -57,8 +65,9 @@ type wcase struct {
 
 type wmis struct {
 	Step   int    `json:"step"`
-	Kind   string `json:"kind"` // ref | model | panic | hang
+	Kind   string `json:"kind"` // ref | model | panic | hang | ctx
 	Detail string `json:"detail"`
+	C07    bool   `json:"c07,omitempty"` // also a breach of C07 (what a blocking path's return value promises)
 }
 
 const aliasSuffix = "_alias9wr876rw3"
@@ -200,7 +209,7 @@ func runWrapCase(c wcase) (mis []wmis) {
 	step := -1
 	defer func() {
 		if r := recover(); r != nil {
-			mis = append(mis, wmis{step, "panic", fmt.Sprint(r)})
+			mis = append(mis, wmis{step, "panic", fmt.Sprint(r), false})
 		}
 	}()
 	ctx, cancel := context.WithCancel(context.Background())
@@ -230,7 +239,7 @@ func runWrapCase(c wcase) (mis []wmis) {
 		}
 		d, err = p.Config(ctx, def(), slot)
 		if err != nil {
-			return []wmis{{-1, "ref", "Config with a Blank failed: " + err.Error()}}
+			return []wmis{{-1, "ref", "Config with a Blank failed: " + err.Error(), false}}
 		}
 	} else {
 		if len(hist) == 0 || hist[0].Op != "configure" {
@@ -240,11 +249,11 @@ func runWrapCase(c wcase) (mis []wmis) {
 		cur = &winner{a: h.A, s: h.S, via: h.Via, watcher: true}
 		d, err = p.Config(ctx, def(), wsource(cur, h.Wrap))
 		if err != nil {
-			return []wmis{{0, "ref", "Config with a wrapped watching source failed: " + err.Error()}}
+			return []wmis{{0, "ref", "Config with a wrapped watching source failed: " + err.Error(), false}}
 		}
 		refSet(h.A, h.S)
 		if !reflect.DeepEqual(d.View(), rd.View()) {
-			mis = append(mis, wmis{0, "ref", fmt.Sprintf("initial view %s, natively %s", showW(d.View()), showW(rd.View()))})
+			mis = append(mis, wmis{0, "ref", fmt.Sprintf("initial view %s, natively %s", showW(d.View()), showW(rd.View())), false})
 		}
 		hist = hist[1:]
 	}
@@ -261,6 +270,8 @@ func runWrapCase(c wcase) (mis []wmis) {
 			time.Sleep(50 * time.Microsecond)
 		}
 	}
+	var lastStaticIn *winner
+	var lastStaticSrc dials.Source
 	mkInner := func(h wstep) *winner {
 		return &winner{a: h.A, s: h.S, via: h.Via, watcher: h.Op == "setwatcher", failWatch: h.Op == "setwatcher" && !h.Flag}
 	}
@@ -279,6 +290,13 @@ func runWrapCase(c wcase) (mis []wmis) {
 			// Value(); the Blank serialises them, so the outcome is that of first-then-second
 			h2 := hist[i+1]
 			in1, in2 := mkInner(h), mkInner(h2)
+			src1, src2 := wsource(in1, h.Wrap), wsource(in2, h2.Wrap)
+			if h.Op == "setstatic" {
+				lastStaticIn, lastStaticSrc = in1, src1
+			}
+			if h2.Op == "setstatic" {
+				lastStaticIn, lastStaticSrc = in2, src2
+			}
 			in1.entered, in1.gate = make(chan struct{}), make(chan struct{})
 			var err1, err2 error
 			done1, done2 := make(chan struct{}), make(chan struct{})
@@ -288,13 +306,13 @@ func runWrapCase(c wcase) (mis []wmis) {
 				pairTimeout = 300 * time.Millisecond
 			}
 			pctx, pcancel := context.WithTimeout(ctx, pairTimeout)
-			go func() { defer close(done1); err1 = blank.SetSource(pctx, wsource(in1, h.Wrap)) }()
+			go func() { defer close(done1); err1 = blank.SetSource(pctx, src1) }()
 			select {
 			case <-in1.entered:
 			case <-done1: // refused before its source was consulted
 			case <-time.After(time.Second):
 			}
-			go func() { defer close(done2); err2 = blank.SetSource(pctx, wsource(in2, h2.Wrap)) }()
+			go func() { defer close(done2); err2 = blank.SetSource(pctx, src2) }()
 			select {
 			case <-done2:
 			case <-time.After(60 * time.Millisecond):
@@ -310,7 +328,7 @@ func runWrapCase(c wcase) (mis []wmis) {
 			}
 			pcancel()
 			if hung {
-				mis = append(mis, wmis{step, "hang", "overlapping SetSource calls did not return"})
+				mis = append(mis, wmis{step, "hang", "overlapping SetSource calls did not return", false})
 				return
 			}
 			if err1 == nil && in1.watcher {
@@ -325,12 +343,12 @@ func runWrapCase(c wcase) (mis []wmis) {
 				}
 				e := []error{err1, err2}[k]
 				if (e != nil) != hh.Err {
-					mis = append(mis, wmis{step + k, "ref", fmt.Sprintf("overlapping SetSource calls, call %d (%s a=%d): error=%v, but serialised (first call first) it is error=%v", k+1, hh.Op, hh.A, e, hh.Err)})
+					mis = append(mis, wmis{step + k, "ref", fmt.Sprintf("overlapping SetSource calls, call %d (%s a=%d): error=%v, but serialised (first call first) it is error=%v", k+1, hh.Op, hh.A, e, hh.Err), false})
 				}
 			}
 			if !waitView(rd.View()) {
 				mis = append(mis, wmis{step + 1, "ref", fmt.Sprintf("after overlapping %s(a=%d) and %s(a=%d): view %s, serialised (first call first) it is %s",
-					h.Op, h.A, h2.Op, h2.A, showW(d.View()), showW(rd.View()))})
+					h.Op, h.A, h2.Op, h2.A, showW(d.View()), showW(rd.View())), true})
 			}
 			skipNext = true
 			continue
@@ -344,12 +362,25 @@ func runWrapCase(c wcase) (mis []wmis) {
 		}
 		opctx, opcancel := context.WithTimeout(ctx, opTimeout)
 		switch h.Op {
-		case "setstatic", "setfailing", "setwatcher":
+		case "setstatic", "setfailing", "setwatcher", "setagain":
 			in := &winner{a: h.A, s: h.S, via: h.Via, watcher: h.Op == "setwatcher", failWatch: h.Op == "setwatcher" && !h.Flag,
 				failValue: h.Op == "setfailing"}
 			src := wsource(in, h.Wrap)
 			if h.Op == "setfailing" {
 				src = in
+			}
+			if h.Op == "setstatic" {
+				lastStaticIn, lastStaticSrc = in, src
+			}
+			if h.Op == "setagain" {
+				// the very same source object once more, its data changed in between
+				if lastStaticSrc == nil {
+					mis = append(mis, wmis{step, "model", "harness: no earlier non-watching source to set again", false})
+					opcancel()
+					return
+				}
+				lastStaticIn.a, lastStaticIn.s, lastStaticIn.via = h.A, h.S, h.Via
+				in, src = lastStaticIn, lastStaticSrc
 			}
 			// SetSource is bounded by the context it is given (C07): it must be back soon after that context ended
 			ret := make(chan error, 1)
@@ -357,7 +388,7 @@ func runWrapCase(c wcase) (mis []wmis) {
 			select {
 			case opErr = <-ret:
 			case <-time.After(opTimeout + 10*time.Second):
-				mis = append(mis, wmis{step, "ctx", fmt.Sprintf("%s: SetSource had not returned 10 s after its context ended (context of %v)", h.Op, opTimeout)})
+				mis = append(mis, wmis{step, "ctx", fmt.Sprintf("%s: SetSource had not returned 10 s after its context ended (context of %v)", h.Op, opTimeout), true})
 				opcancel()
 				return
 			}
@@ -366,7 +397,7 @@ func runWrapCase(c wcase) (mis []wmis) {
 			}
 		case "report", "reportblocking":
 			if cur == nil || cur.wa == nil {
-				mis = append(mis, wmis{step, "model", "harness: no reporting inner source"})
+				mis = append(mis, wmis{step, "model", "harness: no reporting inner source", false})
 				opcancel()
 				return
 			}
@@ -393,29 +424,38 @@ func runWrapCase(c wcase) (mis []wmis) {
 		if h.Took {
 			refSet(h.A, h.S)
 		}
+		// a blocking path (SetSource, BlockingReportNewValue) that returned nil has its value installed already
+		if h.Took && opErr == nil && h.Op != "report" && !reflect.DeepEqual(d.View(), rd.View()) {
+			mis = append(mis, wmis{step, "ref", fmt.Sprintf("%s(a=%d s=%s wrap=%s) returned nil before its value was visible: view %s, natively fed reference %s",
+				h.Op, h.A, h.S, h.Wrap, showW(d.View()), showW(rd.View())), true})
+		}
 		// (a) the property's oracle: same view as the natively fed reference
 		if !waitView(rd.View()) {
 			mis = append(mis, wmis{step, "ref", fmt.Sprintf("after %s(a=%d s=%s wrap=%s via=%s): view %s, natively fed reference %s",
-				h.Op, h.A, h.S, h.Wrap, h.Via, showW(d.View()), showW(rd.View()))})
+				h.Op, h.A, h.S, h.Wrap, h.Via, showW(d.View()), showW(rd.View())), strings.HasPrefix(h.Op, "set") || h.Op == "reportblocking"})
 		}
 		// errors are propagated, not swallowed
 		if h.Op == "setfailing" && opErr == nil {
-			mis = append(mis, wmis{step, "ref", "SetSource with a source whose Value fails returned nil"})
+			mis = append(mis, wmis{step, "ref", "SetSource with a source whose Value fails returned nil", false})
 		}
 		if h.Op == "setwatcher" && !h.Flag && alive && opErr == nil && h.Err {
-			mis = append(mis, wmis{step, "ref", "SetSource returned nil although the inner Watch failed"})
+			mis = append(mis, wmis{step, "ref", "SetSource returned nil although the inner Watch failed", false})
+		}
+		// errors are propagated, not swallowed: a value that Verify rejects comes back as an error from every blocking path
+		if h.A == 13 && h.Err && opErr == nil && alive && h.Op != "report" {
+			mis = append(mis, wmis{step, "ref", fmt.Sprintf("%s(a=13, which Verify rejects) returned nil: the rejection was swallowed", h.Op), true})
 		}
 		// (b) the model's prediction
 		if (opErr != nil) != h.Err && h.Op != "innerdone" && h.Op != "blankdone" {
-			mis = append(mis, wmis{step, "model", fmt.Sprintf("%s: error=%v, model predicts error=%v", h.Op, opErr, h.Err)})
+			mis = append(mis, wmis{step, "model", fmt.Sprintf("%s: error=%v, model predicts error=%v", h.Op, opErr, h.Err), false})
 		}
-		if h.Op == "reporterror" {
+		if h.Op == "reporterror" || int64(h.Errs) != errCount.Load() {
 			dl := time.Now().Add(5 * time.Second)
 			for errCount.Load() < int64(h.Errs) && time.Now().Before(dl) {
 				time.Sleep(50 * time.Microsecond)
 			}
 			if errCount.Load() != int64(h.Errs) {
-				mis = append(mis, wmis{step, "ref", fmt.Sprintf("error reported by the wrapped watcher did not reach OnWatchedError (%d of %d)", errCount.Load(), h.Errs)})
+				mis = append(mis, wmis{step, "ref", fmt.Sprintf("%s: OnWatchedError has been called %d times, expected %d (errors reported by the wrapped watcher and rejected values)", h.Op, errCount.Load(), h.Errs), false})
 			}
 		}
 		if alive != h.Alive {
@@ -426,13 +466,13 @@ func runWrapCase(c wcase) (mis []wmis) {
 				time.Sleep(100 * time.Microsecond)
 			}
 			if n := len(dialsGoroutines()); n > 2 {
-				mis = append(mis, wmis{step, "ref", fmt.Sprintf("%s: the monitor and callback goroutines did not exit (%d library goroutines left, 2 belong to the reference)", h.Op, n)})
+				mis = append(mis, wmis{step, "ref", fmt.Sprintf("%s: the monitor and callback goroutines did not exit (%d library goroutines left, 2 belong to the reference)", h.Op, n), false})
 			}
 		} else if alive && (h.Op == "blankdone" || h.Op == "innerdone") {
 			// Done must not have been forwarded: the library goroutines are still there
 			time.Sleep(200 * time.Microsecond)
 			if n := len(dialsGoroutines()); n < 4 {
-				mis = append(mis, wmis{step, "ref", fmt.Sprintf("%s: the monitor exited although the Blank no longer owns the slot (%d library goroutines left)", h.Op, n)})
+				mis = append(mis, wmis{step, "ref", fmt.Sprintf("%s: the monitor exited although the Blank no longer owns the slot (%d library goroutines left)", h.Op, n), false})
 			}
 		}
 	}
